@@ -46,29 +46,26 @@ def check_list_discipline(chk, prog, eff):
                 unl.append((k[1], nm, node))
     for fn, nm, node in ins:
         n += 1
-        if fn != 'jwks_item_add' or nm != 'list_add_tail':
+        a = node['inner'][1:]
+        ok = nm == 'list_add_tail' and len(a) == 2 and "'name': 'node'" in repr(a[0]) and "'name': 'head'" in repr(a[1])
+        if not ok:
             bad += 1
             chk.add(Finding('C16.list-discipline', UNIT, fn, 'insert[%s]' % nm,
-                            '%s links an item with %s: items must be appended at the tail, in jwks_item_add only (document order)' % (fn, nm),
-                            line=node.get('_l')))
-    for fn, nm, node in unl:
-        n += 1
-        if fn != '__item_free' or nm != 'list_del':
-            bad += 1
-            chk.add(Finding('C16.list-discipline', UNIT, fn, 'unlink[%s]' % nm, '%s unlinks with %s outside __item_free' % (fn, nm), line=node.get('_l')))
+                            '%s links an item with %s: items must be appended with list_add_tail(&item->node, &set->head) (document order)'
+                            % (fn, nm), line=node.get('_l')))
     if not ins or not unl:
         raise AnalysisBroken('list insert/unlink call sites not found in jwks.c')
-    # insertion is on the set's own head with the item's own node
-    add = prog.func(UNIT, 'jwks_item_add')
-    for x in walk(add):
-        if x.get('kind') == 'CallExpr' and _strip(x['inner'][0]).get('referencedDecl', {}).get('name') == 'list_add_tail':
-            n += 1
-            a0, a1 = x['inner'][1], x['inner'][2]
-            txt = repr(a0) + '|' + repr(a1)
-            ok = "'name': 'node'" in repr(a0) and "'name': 'head'" in repr(a1)
-            if not ok:
-                bad += 1
-                chk.add(Finding('C16.list-discipline', UNIT, 'jwks_item_add', 'operands', 'list_add_tail is not called as (&item->node, &set->head)'))
+    destructors = sorted(set(fn for fn, nm, node in unl))
+    for fn, nm, node in unl:
+        n += 1
+        if nm != 'list_del':
+            bad += 1
+            chk.add(Finding('C16.list-discipline', UNIT, fn, 'unlink[%s]' % nm, '%s unlinks with %s' % (fn, nm), line=node.get('_l')))
+    if len(destructors) != 1:
+        bad += 1
+        chk.add(Finding('C16.list-discipline', UNIT, destructors[-1], 'several-unlinkers',
+                        'items are unlinked in several functions (%s): unlink-and-release must live in one destructor' % destructors))
+    chk.coverage['destructor'] = destructors[0]
     # deletion-safe iteration
     for k, info in eff.funcs.items():
         if k[0] != UNIT:
@@ -84,7 +81,7 @@ def check_list_discipline(chk, prog, eff):
                         tgt = eff.resolve(info['unit'], nm) if nm else None
                         if tgt:
                             seen, _ = eff.reachable([tgt])
-                            if (UNIT, '__item_free') in seen:
+                            if (UNIT, destructors[0]) in seen:
                                 frees = True
                 if frees and x.get('_mac') != 'list_for_each_entry_safe':
                     # allowed only if the loop is left right after on every path
@@ -95,8 +92,9 @@ def check_list_discipline(chk, prog, eff):
                         chk.add(Finding('C16.list-discipline', UNIT, k[1], 'unsafe-iteration',
                                         '%s frees items inside a %s loop and keeps iterating: the next step reads the freed node' % (k[1], x.get('_mac')),
                                         line=x.get('_l')))
-    chk.rule('C16.list-discipline', 'append at the tail in jwks_item_add only; unlink in __item_free only; no freeing inside a non-safe iteration',
-             n, bad, floor=6)
+    chk.rule('C16.list-discipline', 'items are linked only by list_add_tail(&item->node, &set->head); unlinked by list_del in one destructor; '
+                                    'no freeing inside a non-safe iteration', n, bad, floor=6)
+    return destructors[0]
 
 
 class FreeRule(memrules.MemRule):
@@ -107,9 +105,9 @@ class FreeRule(memrules.MemRule):
         return ev[0] == 'api' and ev[1] == 'list_del'
 
 
-def check_destructor(chk, prog, env, model):
+def check_destructor(chk, prog, env, model, dtor='__item_free'):
     """__item_free releases every owning field with its own family, unlinks before releasing the container, never touches it afterwards"""
-    prog.func(UNIT, '__item_free')
+    prog.func(UNIT, dtor)
     n = 0
     bad = 0
     ANY = env.E['JWT_CRYPTO_OPS_ANY']
@@ -139,7 +137,7 @@ def check_destructor(chk, prog, env, model):
                     st.mem[(o, 'type')] = Int(0)
             st.ts['own'] = own
             it.roots.discard(item)
-            res = it.run('__item_free', [Ref(item)], st)
+            res = it.run(dtor, [Ref(item)], st)
             it.roots.clear()
             for s, rv in res:
                 n += 1
@@ -147,15 +145,15 @@ def check_destructor(chk, prog, env, model):
                 for o, (fam, loc, fn) in left.items():
                     bad += 1
                     what = 'the item itself' if o == item else o[1].replace('field_', 'item->').replace('_', '.')
-                    chk.add(Finding('C16.destructor', UNIT, '__item_free', 'not-released[%s]' % what,
+                    chk.add(Finding('C16.destructor', UNIT, dtor, 'not-released[%s]' % what,
                                     '%s (family %s) is not released when an item with provider %s is freed under provider %s'
                                     % (what, fam, 'ANY' if provider_val == ANY else 'OPENSSL', current)))
                 for k, key, msg, loc in s.ts.get('probs', ()):
                     bad += 1
-                    chk.add(Finding('C16.destructor', UNIT, '__item_free', '%s[%s]' % (k, key), msg, line=loc[1]))
+                    chk.add(Finding('C16.destructor', UNIT, dtor, '%s[%s]' % (k, key), msg, line=loc[1]))
                 if not s.ts.get('unlinked'):
                     bad += 1
-                    chk.add(Finding('C16.destructor', UNIT, '__item_free', 'not-unlinked', 'the item is released without being unlinked from the list'))
+                    chk.add(Finding('C16.destructor', UNIT, dtor, 'not-unlinked', 'the item is released without being unlinked from the list'))
             for k, key, msg, (f, l), fn in memrules.dedupe(rule.viol):
                 bad += 1
                 chk.add(Finding('C16.destructor', f or UNIT, fn, '%s[%s]' % (k, key), msg, line=l))
@@ -163,7 +161,7 @@ def check_destructor(chk, prog, env, model):
                                'provider; unlink precedes release; nothing used after release', n, bad, floor=4)
 
 
-def check_counters(chk, prog, env, model):
+def check_counters(chk, prog, env, model, dtor='__item_free'):
     """jwks_item_free_bad: returns the number of items it freed; frees exactly the items whose error flag is set"""
     prog.func(UNIT, 'jwks_item_free_bad')
     n = 0
@@ -177,7 +175,7 @@ def check_counters(chk, prog, env, model):
             return ev[0] == 'api' and ev[1] == '__item_free'
 
         def on_call(self, it, st, name, args, node):
-            if name == '__item_free':
+            if name == dtor:
                 item = args[0]
                 fl = it.load(st, ('term', item.k), 'error') if isinstance(item, Term) else None
                 known = None
@@ -189,7 +187,7 @@ def check_counters(chk, prog, env, model):
     def h_free(it, st, args, node):
         st.trace.append(('api', '__item_free', args[0], [], node_loc(node)))
         return [(st, Int(0))]
-    it = Interp(prog, UNIT, model=model, rule=R(), hooks={'__item_free': h_free})
+    it = Interp(prog, UNIT, model=model, rule=R(), hooks={dtor: h_free})
     st = State()
     js = ('obj', 'set')
     res = it.run('jwks_item_free_bad', [Ref(js)], st)
@@ -233,7 +231,7 @@ def check_counters(chk, prog, env, model):
     chk.rule('C16.free-bad-count', 'jwks_item_free_bad frees exactly flagged items and returns the number of items it freed', n, bad, floor=3)
 
 
-def check_lookups(chk, prog, env, model):
+def check_lookups(chk, prog, env, model, dtor='__item_free'):
     n = 0
     bad = 0
     # jwks_find_bykid: exact compare, first match of a forward walk
@@ -284,7 +282,7 @@ def check_lookups(chk, prog, env, model):
 
         def keep_event(self, ev):
             return ev[0] == 'api' and ev[1] == '__item_free'
-    it = Interp(prog, UNIT, model=model, rule=R2(), hooks={'__item_free': h_free})
+    it = Interp(prog, UNIT, model=model, rule=R2(), hooks={dtor: h_free})
     res = it.run('jwks_item_free', [Ref(js), Term(('index',))], State())
     for s, rv in res:
         n += 1
@@ -301,10 +299,10 @@ def run(chk, prog, tier):
     env = Env(prog)
     model = build_model()
     eff = effects.Effects(prog)
-    check_list_discipline(chk, prog, eff)
-    chk.guard('destructor', check_destructor, chk, prog, env, model)
-    chk.guard('free_bad counter', check_counters, chk, prog, env, model)
-    chk.guard('lookups', check_lookups, chk, prog, env, model)
+    dtor = check_list_discipline(chk, prog, eff)
+    chk.guard('destructor', check_destructor, chk, prog, env, model, dtor)
+    chk.guard('free_bad counter', check_counters, chk, prog, env, model, dtor)
+    chk.guard('lookups', check_lookups, chk, prog, env, model, dtor)
     chk.assumptions += ['list semantics under arbitrary operation sequences, index arithmetic of jwks_item_get / jwks_item_free(i) over the walk and the '
                         'heap-shape invariants of ll.h are NOT decided (loops over runtime data)']
     return chk.finish(
